@@ -31,7 +31,7 @@ CHECKS["C03"] = {
     "level_text": "every ordered pair of entry lists up to the stated length over a 3-section x 2-key universe (all group interleavings, "
                   "setter-built and parsed, all empty-object constructors) is merged by the real econf_mergeFiles and compared with a "
                   "reference written from the statement; no sampling",
-    "level_note": "bounded: list length <= 3 (quick) / 4 (thorough) with tagged values, <= 2 / 3 with up to two entries without value, 2-symbol families up to length 4 / 7 with at most one entry without value; trusted: the reference merge in harness/c03.c, gcc ASan/UBSan",
+    "level_note": "bounded: list length <= 3 (quick) / 4 (thorough) with tagged values, <= 2 / 3 with up to two entries without value, 2-symbol families up to length 4 / 7 with at most one entry without value, <= 2 / 3 over names that collide under the library's own string hash; trusted: the reference merge in harness/c03.c, gcc ASan/UBSan",
     "rule": "all ordered pairs (base, override) of entry lists over {group-less,A,B}x{x,y} up to length L, every group "
             "interleaving, each list realised by setters (3 constructors) and by parsing; plus all pairs of lists up to a longer "
             "length over three 2-symbol sub-alphabets; non-trivial = the two sides share a section, or a side is empty, or a side "
@@ -43,6 +43,8 @@ CHECKS["C03"] = {
          "deadline_share": 0.4, "floor": {"quick": 10000, "thorough": 100000}},
         {"name": "pairs-emptyvalues", "harness": "c03", "variant": "asan", "quick": ["--p0", 2, "--p1", 2], "thorough": ["--p0", 3, "--p1", 2],
          "deadline_share": 0.3, "floor": {"quick": 10000, "thorough": 100000}},
+        {"name": "pairs-colliding-names", "harness": "c03", "variant": "asan", "quick": ["--p0", 2, "--p1", 1, "--p4", 1], "thorough": ["--p0", 3, "--p1", 1, "--p4", 1],
+         "deadline_share": 0.1, "floor": {"quick": 1000, "thorough": 100000}},
         {"name": "long-AxBx", "harness": "c03", "variant": "asan", "quick": ["--p3", 1, "--p2", 4, "--p1", 1], "thorough": ["--p3", 1, "--p2", 7, "--p1", 1],
          "deadline_share": 0.1, "floor": {"quick": 1000, "thorough": 10000}},
         {"name": "long-NxAx", "harness": "c03", "variant": "asan", "quick": ["--p3", 2, "--p2", 4, "--p1", 1], "thorough": ["--p3", 2, "--p2", 7, "--p1", 1],
@@ -67,7 +69,9 @@ CHECKS["C02"] = {
     "deadline": {"quick": 110, "thorough": 1200},
     "parts": [
         {"name": "files", "harness": "c02", "variant": "asan", "quick": ["--p0", 3, "--p1", 1], "thorough": ["--p0", 4, "--p1", 2, "--p2", 1],
-         "floor": {"quick": 100000, "thorough": 1000000}},
+         "deadline_share": 0.85, "floor": {"quick": 100000, "thorough": 1000000}},
+        {"name": "blocks", "harness": "c02", "variant": "asan", "quick": ["--p0", 3, "--p3", 1], "thorough": ["--p0", 4, "--p3", 1],
+         "deadline_share": 0.15, "floor": {"quick": 100000, "thorough": 1000000}},
     ],
     "assumptions": ["printable tokens from a fixed small alphabet stand for arbitrary printable text of the same character classes",
                     "files longer than N lines are not covered"],
@@ -193,7 +197,9 @@ CHECKS["C11"] = {
     "level_text": "all histories of econf_setStringValue over 5 section spellings x 3 keys x 2 values up to depth d from 8 start states (three constructors, "
                   "three parsed files incl. duplicate key / empty section / re-opened section, two chains crossing the 8 pre-allocated entries) are explored "
                   "breadth-first with de-duplication on the canonical object form; in every state all gets, defaulted gets and listings are compared with a "
-                  "reference ordered map, refused calls must have no effect, typed setters are applied one step ahead, and the state must be reproducible",
+                  "reference ordered map, refused calls must have no effect, typed setters are applied one step ahead, and the state must be reproducible; "
+                  "a second alphabet (bfs-odd-names) uses the bracket pair alone as group-less spelling, section and key names that are equal under the "
+                  "library's own string hash, a bracketed/plain alias pair and an array-style section name",
     "level_note": "bounded: depth 4 (quick) / 5, and 6 from the empty constructors (thorough); trusted: reference map in harness/e2common.h; canonical form read from the private struct "
                   "(keeps the spare capacity); a merge of two histories with different reference states is reported (canon-conflict)",
     "rule": "state = canonical form (entries in order with group/key/value/comments/quote flag, group list, spare capacity, tags); transition = one "
@@ -201,9 +207,11 @@ CHECKS["C11"] = {
     "deadline": {"quick": 100, "thorough": 1200},
     "parts": [
         {"name": "bfs", "harness": "c11", "variant": "asan", "shards": 1, "quick": ["--p0", 4], "thorough": ["--p0", 5],
-         "deadline_share": 0.6, "floor": {"quick": 10000, "thorough": 100000}},
+         "deadline_share": 0.4, "floor": {"quick": 10000, "thorough": 100000}},
+        {"name": "bfs-odd-names", "harness": "c11", "variant": "asan", "shards": 1, "quick": ["--p0", 4, "--p4", 1], "thorough": ["--p0", 5, "--p4", 1],
+         "deadline_share": 0.3, "floor": {"quick": 10000, "thorough": 100000}},
         {"name": "bfs-deep", "harness": "c11", "variant": "asan", "shards": 1, "tiers": ["thorough"], "thorough": ["--p0", 6, "--p1", 6, "--p2", 5, "--p3", 10000000],
-         "deadline_share": 0.4, "floor": {"thorough": 100000}},
+         "deadline_share": 0.3, "floor": {"thorough": 100000}},
     ],
     "assumptions": ["values are two short tags; keys/sections from a universe of 3 x 3 (+ chain keys)"],
 }
